@@ -465,6 +465,9 @@ func isFresh(v ssa.Value) bool {
 	switch x := v.(type) {
 	case *ssa.Alloc:
 		return true
+	case *ssa.FieldAddr:
+		// a struct held by value inside a fresh object
+		return isFresh(x.X)
 	case *ssa.Phi:
 		for _, e := range x.Edges {
 			if !isFresh(e) {
@@ -655,6 +658,8 @@ func (la *lockAnalysis) whoMayWrite(rule, field string, allowed map[string]strin
 			}
 			if why, ok := allowed[name]; ok {
 				c.ok(rule, key, st.Pos(), why)
+			} else if via, ok := helperOf(f, func(n string) bool { _, ok := allowed[n]; return ok }, 0); ok {
+				c.ok(rule, key, st.Pos(), "unexported helper called only from "+via+", one of the functions that own this state: "+allowed[via])
 			} else {
 				c.bad(rule, key, st.Pos(), fmt.Sprintf("%s is assigned in %s, which is not one of the functions that own this state (%s)", field, name, strings.Join(keysOf(allowed), ", ")))
 			}
